@@ -749,19 +749,6 @@ Proof.
 Qed.
 
 (* ---------- witnesses ---------- *)
-Definition w_cfg : cfg := {| c_n := 2; c_off := fun d => match d with O => 7200000000000 | _ => 0 end; c_tol := 0 |}.
-Definition w_hist : list op :=
-  [OAlive 1 (DTcp, V4) false; ONotify 1 (DTcp, V4) false; ONotify 0 (DTcp, V4) false;
-   OLat 0 (DTcp, V4) (Some 1, Some 1, Some 1); ONotify 0 (DTcp, V4) true].
-Definition w_rq : reqtype := {| rq_l4 := TCP; rq_ipv := V4; rq_isdns := false; rq_udpdom := UUnset |}.
-
-Lemma C15_select_min_refuted_proof :
-  g_policy (run w_cfg (GSet (SMin MLast)) w_hist) = GSet (SMin MLast) /\
-  view_mem 0 (ss_views (spec_run w_cfg (GSet (SMin MLast)) w_hist) (DTcp, V4)) = true /\
-  In (RErr ENoAlive hour) (results_of (select w_cfg (run w_cfg (GSet (SMin MLast)) w_hist) w_rq true None)) /\
-  select_ok w_cfg (spec_run w_cfg (GSet (SMin MLast)) w_hist) (key_of w_rq) true None (RErr ENoAlive hour) = false.
-Proof. vm_compute. repeat split; auto. Qed.
-
 (* the strict reading of "merely better": a tie moves the standing choice *)
 Definition w2_cfg : cfg := {| c_n := 2; c_off := fun _ => 0; c_tol := 30000000 |}.
 Definition w2_hist : list op :=
